@@ -268,6 +268,16 @@ def check_fixed(c, st):
     st.monitor_evals += 1
     s = c['text']
     try:
+        # a caller that uses the public parse_url() first and takes the dict it is handed apart: nothing of that may
+        # show in URL(text) afterwards
+        d0 = uu.parse_url(s)
+        if isinstance(d0, dict):
+            for k0 in list(d0):
+                d0[k0] = 'zz-caller-edit'
+            d0.pop('host', None)
+    except Exception:
+        pass
+    try:
         u = uu.URL(s)
     except uu.URLParseError:
         st.count('fixed:rejected-by-parser')
